@@ -1023,6 +1023,7 @@ func streamExpand(t *testing.T, o *Out) {
 	id := 0
 	// one state in wideEvery has more than a page of children below one node
 	wideEvery := envInt("VERIF_EXPAND_WIDE_EVERY", 25)
+	states := 0
 	// corpus first: the storage order of the line is forced (rows are rewritten until
 	// the engine sees that order)
 	for _, l := range corpusLines("expand") {
@@ -1076,24 +1077,30 @@ func streamExpand(t *testing.T, o *Out) {
 		} else {
 			o.Count("checkleaves:not-plain")
 		}
-		// every global depth 1..8 with a request depth of -1, 0, 1..g, > g; page sizes
-		// default and small
+		// Changing the global depth reloads the configuration (tens of ms), so a state is
+		// run at two global depths: the one the check engine was just asked at (request
+		// depths 1..8 decide) and one of 1..8 (in turn) with request depths -1, 0, 1..g
+		// and > g; page sizes: default and small.
 		type variant struct{ g, rd, ps int }
 		var vs []variant
+		smallPage := func() int {
+			if r.Intn(3) == 0 {
+				return 1 + r.Intn(4)
+			}
+			return 0
+		}
+		states++
+		g := 1 + states%8
 		if wide {
-			for _, g := range []int{1, 2, 3, 5} {
-				vs = append(vs, variant{g, 0, 0})
-			}
-			vs = append(vs, variant{4, 2, 0}, variant{3, 0, 7}, variant{3, 0, 100}, variant{3, 0, 101})
+			vs = append(vs, variant{expCheckDepth, 1, 0}, variant{expCheckDepth, 2, 0}, variant{expCheckDepth, 3, 0},
+				variant{expCheckDepth, 3, 7}, variant{expCheckDepth, 3, 100}, variant{expCheckDepth, 3, 101},
+				variant{g, 0, 0}, variant{g, -1, 99})
 		} else {
-			for g := 1; g <= 8; g++ {
-				rd := []int{-1, 0, 1 + r.Intn(g), g + 1 + r.Intn(3)}[r.Intn(4)]
-				ps := 0
-				if r.Intn(3) == 0 {
-					ps = 1 + r.Intn(4)
-				}
-				vs = append(vs, variant{g, rd, ps})
+			for i := 0; i < 3; i++ {
+				vs = append(vs, variant{expCheckDepth, 1 + r.Intn(8), smallPage()})
 			}
+			vs = append(vs, variant{g, -1, smallPage()}, variant{g, 0, smallPage()}, variant{g, 1 + r.Intn(g), smallPage()},
+				variant{g, g + 1 + r.Intn(3), smallPage()}, variant{g, r.Intn(g+3) - 1, smallPage()})
 		}
 		for _, v := range vs {
 			vc := *c
@@ -1102,6 +1109,11 @@ func streamExpand(t *testing.T, o *Out) {
 			emitted++
 			e.emit(o, &vc, fmt.Sprintf("g%d", id), plain, cl)
 			o.Count(fmt.Sprintf("gdepth:%d", v.g))
+			if eff := v.rd; v.rd >= 1 && v.rd <= v.g {
+				o.Count(fmt.Sprintf("effdepth:%d", eff))
+			} else {
+				o.Count(fmt.Sprintf("effdepth:%d", v.g))
+			}
 			switch {
 			case v.rd < 0:
 				o.Count("rdepth:negative")
